@@ -13,7 +13,8 @@ ANCHORS = ["src/pylife/strength/miner.py", "src/pylife/strength/solidity.py", "s
 SHARDS = {"quick": 4, "thorough": 16}
 WATCHDOG = {"quick": 900, "thorough": 3000}
 REQUIRED_CLASSES = {t: ["empty_top_class", "empty_bottom_class", "empty_interior_class", "single_class", "all_below_SD",
-                        "straddling_SD", "all_above_SD", "form:histogram", "form:collective_frame", "order:reversed", "order:permuted", "histogram:accessor_kept_counts_updated_in_place"]
+                        "straddling_SD", "all_above_SD", "form:histogram", "form:collective_frame", "order:reversed", "order:permuted", "histogram:accessor_kept_counts_updated_in_place", "curve:native_probability!=0.5",
+                        "curve:k_2_given", "miner_object_kept"]
                     for t in ("quick", "thorough")}
 REQUIRED_MONITORS = ["damage==sum(n_i/N_i)", "additive_over_split", "proportional_to_cycles", "permutation_invariant",
                      "original<=haibach<=elementary", "gassner:elementary_damage==1", "gassner:haibach_damage==1",
@@ -50,6 +51,10 @@ def generate(ctx):
         curve = {"k_1": k1, "SD": float(10 ** rng.uniform(1.5, 2.7)), "ND": float(10 ** rng.uniform(5, 7))}
         if rng.random() < 0.5:
             curve["TN"] = float(rng.uniform(1.5, 6.0))      # scatter must not enter the damage at the native probability
+            if rng.random() < 0.25:
+                curve["failure_probability"] = float(rng.choice([0.1, 0.025, 0.9]))      # a curve given for another probability than 50 %
+        if rng.random() < 0.12:
+            curve["k_2"] = 2 * k1 - 1                         # the second slope written into the curve
         m = int([1, 2, 3, 5, 8, 12][i % 6])
         if rng.random() < 0.5:
             edges = np.linspace(0, 1, m + 1)
@@ -113,6 +118,13 @@ def run_case(case, ctx):
     import pylife.strength.fatigue  # noqa: F401
     c = case["curve"]
     k1, SD, ND = c["k_1"], c["SD"], c["ND"]
+    if c.get("failure_probability", 0.5) != 0.5:
+        # damage and Gassner cycles are evaluated for 50 %: the curve's own model (verified by C08) gives SD and ND there
+        from . import c08
+        SD, ND = c08._shifted(c, 0.5)[:2]
+        ctx.tag("curve:native_probability!=0.5")
+    if "k_2" in c:
+        ctx.tag("curve:k_2_given")
     coll, amps, cyc, raw = make_collective(case)
     occupied = cyc > 0
     m = len(cyc)
@@ -137,6 +149,10 @@ def run_case(case, ctx):
         ctx.tag("straddling_SD")
     ctx.nontrivial(int(occupied.sum()) >= 2)
     mech = ["c11_empty_top_class"] if "empty_top_class" in struct else []
+    if c.get("failure_probability", 0.5) != 0.5:
+        mech.append("c11_haibach_gassner_mixes_native_and_50pct_SD")
+    if "k_2" in c and top < SD:
+        mech.append("c11_gassner_below_SD_with_k_2_in_curve")
 
     got_amp = np.asarray(coll.amplitude, dtype=float)
     ctx.check("collective_amplitude==interval_mid/2", np.allclose(got_amp, amps, rtol=1e-12), observed=got_amp, expected=amps)
@@ -225,6 +241,13 @@ def run_case(case, ctx):
             dmg = sum(own_damage(amps, cyc * (Ng / total), SD, ND, k1, k2))
             ctx.check(f"gassner:{rule}_damage==1", _close(dmg, 1.0, 1e-9), observed=dmg, expected=1.0, tags=mech,
                       detail={"gassner_cycles": Ng, "class_order": label, "order": order_, "amplitudes": amps, "cycles": cyc})
+    # one Miner object kept and asked several things one after the other: no answer depends on what was asked before
+    ctx.tag("miner_object_kept")
+    m_ = wc.gassner_miner_elementary
+    q1 = [float(np.asarray(m_.gassner_cycles(coll))), float(np.asarray(m_.lifetime_multiple(coll))), float(m_.ND)]
+    m_.gassner(coll), m_.effective_damage_sum(coll), m_.gassner(coll)
+    q2 = [float(np.asarray(m_.gassner_cycles(coll))), float(np.asarray(m_.lifetime_multiple(coll))), float(m_.ND)]
+    ctx.check("kept_miner_object_answers_unchanged", q1 == q2 and float(wc["ND"]) == float(c["ND"]), observed=q2, expected=q1)
     # the Gassner-shifted curve evaluated at the highest occupied amplitude gives the same cycles
     g = wc.gassner_miner_elementary.gassner(coll)
     ng2 = float(np.asarray(g.cycles(top)))
